@@ -102,6 +102,11 @@ def _run_once(case, minimize, negate):
                 def repair0(sol, rng):
                     return tuple(0 if v == -1 else v for v in sol)
                 acc = case.get("accept", "improving")
+                if acc.startswith("cb:"):       # user-supplied acceptance rules (callables): deterministic scripts
+                    acc = {"cb:never": lambda cur, new, it, rng: False,
+                           "cb:alternate": lambda cur, new, it, rng: it % 2 == 1,
+                           "cb:worse_only": lambda cur, new, it, rng: new >= cur,
+                           "cb:every_third": lambda cur, new, it, rng: it % 3 == 0}[acc]
                 if s == "lns":
                     r = solvor.lns(init, proxy, destroy, repair, minimize=minimize, accept=acc, max_iter=case["max_iter"],
                                    max_no_improve=case.get("max_no_improve", 30), seed=seed, start_temp=case.get("temperature", 5.0))
@@ -191,11 +196,12 @@ def gen(rng, solver=None):
         n = rng.randint(2, 5)
         case.update(family="disc", n=n, init=[rng.randrange(4) for _ in range(n)],
                     fparams={"a": [rng.randint(-3, 4) for _ in range(n)], "t": rng.randint(-4, 8), "cap": rng.choice([2, 3, 50])},
-                    max_iter=rng.choice([1, 3, 15, 60]))
+                    max_iter=rng.choice([0, 1, 3, 15, 60]))
         if s == "anneal":
             case.update(temperature=rng.choice([0.5, 10.0, 1000.0]), cooling=rng.choice([0.5, 0.95, 0.9995]))
         if s in ("lns", "alns"):
-            case.update(accept=rng.choice(["improving", "accept_all", "simulated_annealing"]), temperature=rng.choice([0.5, 5.0, 100.0]), segment_size=rng.choice([2, 5]))
+            case.update(accept=rng.choice(["improving", "accept_all", "simulated_annealing", "simulated_annealing",
+                                           "cb:never", "cb:alternate", "cb:worse_only", "cb:every_third"]), temperature=rng.choice([0.5, 5.0, 100.0]), segment_size=rng.choice([2, 5]))
         if s == "evolve":
             case.update(pop=rng.choice([4, 6, 9]), elite=rng.choice([1, 2]), mutation_rate=rng.choice([0.1, 0.5, 1.0]), adaptive=rng.random() < 0.3)
         if s == "tabu_search":
@@ -203,7 +209,7 @@ def gen(rng, solver=None):
     else:
         n = rng.randint(1, 3)
         bounds = [[-rng.choice([1.0, 2.5, 4.0]), rng.choice([1.5, 3.0, 5.0])] for _ in range(n)]
-        case.update(n=n, bounds=bounds, x0=[round(rng.uniform(b[0], b[1]), 2) for b in bounds], max_iter=rng.choice([1, 4, 12, 25]))
+        case.update(n=n, bounds=bounds, x0=[round(rng.uniform(b[0], b[1]), 2) for b in bounds], max_iter=rng.choice([0, 1, 4, 12, 25]))
         if s in CONT2 and s != "powell":
             case.update(family="quad", fparams={"c": [rng.randint(-2, 2) for _ in range(n)], "w": [rng.choice([1, 2, 5]) for _ in range(n)]})
             case["minimize"] = True
